@@ -196,8 +196,12 @@ class _Getter(NativeModel):
 
     def get_rtlir(self, v):
         w = self.w
-        if not isinstance(v, (SymInt, int)) or isinstance(v, bool):
-            raise AnalysisError(f"get_rtlir of a non-integer abstract value {v!r}")
+        if isinstance(v, AInst) and '_c10_dtype' in v.attrs:       # stand-in for a bitstruct constant
+            return w.I.call(w.I.getattr(w.rt, 'Const'), [v.attrs['_c10_dtype'], v])
+        if isinstance(v, AInst) and v.cls is w.bits_cls:
+            pass
+        elif not isinstance(v, (SymInt, int)) or isinstance(v, bool):
+            raise AnalysisError(f"get_rtlir of an unsupported abstract value {v!r}")
         dt = w.I.call(w.I.getattr(w.rdt, 'get_rtlir_dtype'), [v])
         return w.I.call(w.I.getattr(w.rt, 'Const'), [dt, v])
 
@@ -223,6 +227,14 @@ class World:
             raise AnalysisError("get_visitor_class does not return a class")
         s.ck_mod = s.ck_cls.mod
         s.evals = 0
+        s.bits_cls = s.I.mod_name(repo.mod(RDT), 'Bits')       # the Bits class as the rtype layer sees it
+        if not isinstance(s.bits_cls, ClsVal):
+            raise AnalysisError("anchor vanished: Bits class imported by RTLIRDataType.py")
+
+    def bits_obj(s, nbits, value):
+        b = AInst(s.bits_cls)
+        b.attrs.update(_nbits=nbits, _uint=value)
+        return b
 
     def checker(s):
         try:
@@ -1147,6 +1159,15 @@ def rule_widthtable(repo):
           derived(300), want_expl=False,
           post=lambda node, ck: None if form_of(node.attrs.get('_value', 0)) == {'v': 1} else "the constant's value is not recorded")
 
+    # explicitness of a free variable is decided by the python type of the object, not by whether its value is known
+    check('visit_FreeVar', "visit_FreeVar BitsN constant: its own width, explicitly sized (although its value is known)",
+          w.new(w.bir, 'FreeVar', 'K', w.bits_obj(S(4, 'wk'), S(9, 'v'))), {'wk': 1}, want_expl=True,
+          post=lambda node, ck: None if form_of(node.attrs.get('_value', 0)) == {'v': 1} else "the constant's value is not recorded")
+    sc = AInst(w.I.get_class(BIR, 'Base'))
+    sc.attrs['_c10_dtype'] = w.new(w.rdt, 'Struct', Opaque('cls'), {'a': w.vec(S(3, 'fa')), 'b': w.vec(S(5, 'fb'))})
+    check('visit_FreeVar', "visit_FreeVar bitstruct constant: struct width, explicitly sized (no integer value)",
+          w.new(w.bir, 'FreeVar', 'K', sc), {'fa': 1, 'fb': 1}, want_expl=True)
+
     # -- slices ----------------------------------------------------------------------------------------
     n = 6      # not a power of two: the range tests, not the index width, must reject out-of-range bounds
     cls_of = {}
@@ -1292,7 +1313,7 @@ def rule_widthtable(repo):
     if all(p['exc'] is not None or pw.nwidth(p['node']).form == {1: 1} for p in ppts):
         raise AnalysisError("R-C10-widthtable: the embedded comparison typed like its operand is not flagged")
     r.evaluations = w.evals
-    r.require_floor(63)
+    r.require_floor(65)
     return r
 
 
@@ -1304,7 +1325,137 @@ def rule_sim_accepts(repo):
     return rule_guard(repo)
 
 
-RULES = [rule_intlog, rule_litwidth, rule_idxwidth, rule_optable, rule_handlers, rule_mismatch, rule_widthtable, rule_sim_accepts]
+# ---------------------------------------------------------------------------
+CACHE_PROBE = """
+class G:
+  def __init__( self ):
+    self._struct_dtype_cache = {}
+  def _get_signal_dtype( self, obj ):
+    Type = obj._dsl.Type
+    key = ( Type.__name__, tuple( Type.__bitstruct_fields__ ) )
+    if key not in self._struct_dtype_cache:
+      self._struct_dtype_cache[ key ] = get_rtlir_dtype( obj )
+    return self._struct_dtype_cache[ key ]
+  def _by_class( self, obj ):
+    Type = obj._dsl.Type
+    if Type not in self._struct_dtype_cache:
+      self._struct_dtype_cache[ Type ] = get_rtlir_dtype( obj )
+    return self._struct_dtype_cache[ Type ]
+"""
+TYPE_PRODUCERS = ('get_rtlir_dtype', '_get_rtlir_dtype_struct', 'get_rtlir', '_get_rtlir_uncached', 'handler', 'Struct', 'Vector',
+                  'PackedArray', 'Port', 'Wire', 'Const', 'Array', '_get_signal_dtype')
+
+
+def _memo_stores(mod):
+    """(function, container text, key expr, store stmt) for every dict that is both consulted and filled with an RTLIR
+    type / data type inside one function of the module (= a memo on the path object -> RTLIR type)"""
+    out = []
+    for f in ast.walk(mod.tree):
+        if not isinstance(f, (ast.FunctionDef, ast.AsyncFunctionDef)):
+            continue
+        stores = []
+        for st in walk_no_nested(f):
+            if isinstance(st, ast.Assign):
+                for t in st.targets:
+                    if isinstance(t, ast.Subscript):
+                        stores.append((norm(t.value), t.slice, st))
+                    elif isinstance(t, ast.Name) and isinstance(st.value, ast.Assign):
+                        pass
+        # chained `ret = C[k] = v`
+        for cont, key, st in stores:
+            consulted = False
+            for n in walk_no_nested(f):
+                if isinstance(n, ast.Compare) and any(isinstance(o, (ast.In, ast.NotIn)) for o in n.ops) and \
+                        any(norm(c) == cont for c in n.comparators):
+                    consulted = True
+                if isinstance(n, ast.Subscript) and isinstance(n.ctx, ast.Load) and norm(n.value) == cont:
+                    consulted = True
+                if isinstance(n, ast.Call) and isinstance(n.func, ast.Attribute) and n.func.attr in ('get', 'setdefault') \
+                        and norm(n.func.value) == cont:
+                    consulted = True
+            if not consulted:
+                continue
+            def is_producer(c):
+                nm = norm(c.func).split('.')[-1]
+                return nm in TYPE_PRODUCERS or nm.startswith('_handle_')
+            produces = any(isinstance(c, ast.Call) and is_producer(c) for c in ast.walk(st.value))
+            if not produces and isinstance(st.value, ast.Name):
+                from sa.astutil import reaching_value
+                rv = reaching_value(st.value.id, st)
+                produces = rv is not None and any(isinstance(c, ast.Call) and is_producer(c) for c in ast.walk(rv))
+            if produces:
+                out.append((f, cont, key, st))
+    return out
+
+
+def _classify_key(key, st, f, depth=0):
+    """'identity' (the object / its class object), 'types' (covers every field type), 'names' (only __name__ / field names /
+    constants) -- for one element of a memo key"""
+    from sa.astutil import reaching_value
+    params = {a.arg for a in f.args.args + f.args.kwonlyargs}
+    txt = norm(key)
+    if isinstance(key, ast.Constant):
+        return 'names'
+    if isinstance(key, ast.Name):
+        if key.id in params:
+            return 'identity'
+        rv = reaching_value(key.id, st) if depth < 5 else None
+        if rv is None:
+            raise AnalysisError(f"memo key `{key.id}` in {f.name} cannot be resolved")
+        return _classify_key(rv, st, f, depth + 1)
+    if isinstance(key, ast.Tuple):
+        kinds = [_classify_key(e, st, f, depth + 1) for e in key.elts]
+        return 'identity' if 'identity' in kinds else 'types' if 'types' in kinds else 'names'
+    if isinstance(key, ast.Call) and norm(key.func) in ('_freeze', 'id') and len(key.args) == 1:
+        return 'identity' if _classify_key(key.args[0], st, f, depth + 1) == 'identity' else 'names'
+    if isinstance(key, ast.Call) and norm(key.func) == 'type' and len(key.args) == 1:
+        return 'identity'
+    if isinstance(key, ast.Attribute) and key.attr in ('Type', '__class__', 'cls'):
+        return 'identity'
+    if '__name__' in txt and not any(x in txt for x in ('.items()', '.values()')) and 'get_full_name' not in txt:
+        return 'names'
+    if any(x in txt for x in ('.items()', '.values()', 'get_full_name()', 'get_field_str()')):
+        return 'types'
+    if '__bitstruct_fields__' in txt or '.keys()' in txt or '__qualname__' in txt or '__module__' in txt:
+        return 'names'
+    raise AnalysisError(f"memo key `{txt}` in {f.name} is outside the recognised key shapes")
+
+
+def rule_cache(repo):
+    r = RuleResult('R-C10-cache', "a memo on the path object -> RTLIR (data) type is keyed by the object / its class object or by a "
+                                  "key that covers every field type, never by class name / field names only")
+    from sa.loader import Module
+    found = 0
+    for rel in (RT, RDT):
+        m = repo.mod(rel)
+        for f, cont, key, st in _memo_stores(m):
+            kind = _classify_key(key, st, f)
+            q = f.name
+            from sa.astutil import qualname
+            q = qualname(f)
+            cons = f"{cont}[{norm(key)}] = {norm(st.value)[:60]}"
+            found += 1
+            if kind == 'names':
+                shown = norm(key)
+                if isinstance(key, ast.Name):
+                    from sa.astutil import reaching_value
+                    rv = reaching_value(key.id, st)
+                    shown = f"{key.id} = {norm(rv)}" if rv is not None else shown
+                r.bad(m, q, cons, f"the memo {cont} is keyed by names only ({shown}): two different BitStruct classes with the same "
+                      f"class name and field names but other field widths share one entry, the second gets the stale widths "
+                      f"(static width differs from the simulator's)", st.lineno)
+            else:
+                r.ok(m, q, cons, note=f"key kind: {kind}")
+    # embedded positive example: the name-keyed memo must be flagged, the class-keyed one must not
+    pm = Module(repo, '<c10-cache-probe>', CACHE_PROBE)
+    kinds = {f.name: _classify_key(key, st, f) for f, cont, key, st in _memo_stores(pm)}
+    if kinds != {'_get_signal_dtype': 'names', '_by_class': 'identity'}:
+        raise AnalysisError(f"R-C10-cache: embedded examples classified as {kinds}")
+    r.require_floor(2)
+    return r
+
+
+RULES = [rule_intlog, rule_litwidth, rule_idxwidth, rule_optable, rule_handlers, rule_mismatch, rule_widthtable, rule_cache, rule_sim_accepts]
 
 
 # ---------------------------------------------------------------------------
@@ -1346,6 +1497,16 @@ MUTANTS = [
     _m('struct-literal-not-resized', TC3, "        if not r_is_struct and is_rhs_reinterpretable and struct_nbits != vector_nbits:", "        if not r_is_struct and not is_rhs_reinterpretable and struct_nbits != vector_nbits:", 'R-C10-mismatch'),
     _m('defect-e-ifexp-bool-arm-not-unified', TC2, "    lhs_is_vector = isinstance(lhs_dtype, (rdt.Vector, rdt.Bool))\n    rhs_is_vector = isinstance(rhs_dtype, (rdt.Vector, rdt.Bool))\n",
        "    lhs_is_vector = isinstance(lhs_dtype, rdt.Vector)\n    rhs_is_vector = isinstance(rhs_dtype, rdt.Vector)\n", 'R-C10-mismatch'),
+    # third round: free-variable explicitness by python type; memo keys on the path object -> RTLIR type
+    _m('freevar-explicit-iff-value-unknown', TC1, "    node._is_explicit = not isinstance(node.obj, int)", "    node._is_explicit = not hasattr(node, '_value')", 'R-C10-widthtable'),
+    _m('rtlir-cache-keyed-by-class-name', RT, "    obj = _freeze( _obj )\n    if obj in self._rtlir_cache:", "    obj = type( _obj ).__name__\n    if obj in self._rtlir_cache:", 'R-C10-cache'),
+    dict(name='struct-dtype-memo-keyed-by-names', rule='R-C10-cache', edits=[
+        dict(file=RT, old="from pymtl3.datatypes import Bits, is_bitstruct_inst\n", new="from pymtl3.datatypes import Bits, is_bitstruct_class, is_bitstruct_inst\n", count=1),
+        dict(file=RT, old="    self._RTLIR_ifc_handlers = [\n", new="    self._struct_dtype_cache = {}\n\n    self._RTLIR_ifc_handlers = [\n", count=1),
+        dict(file=RT, old="  def _handle_Wire( self, w_id, obj ):\n    return Wire( get_rtlir_dtype( obj ) )\n",
+             new="  def _get_signal_dtype( self, obj ):\n    Type = obj._dsl.Type\n    if is_bitstruct_class( Type ):\n      key = ( Type.__name__, tuple( Type.__bitstruct_fields__ ) )\n"
+                 "      if key not in self._struct_dtype_cache:\n        self._struct_dtype_cache[ key ] = get_rtlir_dtype( obj )\n      return self._struct_dtype_cache[ key ]\n"
+                 "    return get_rtlir_dtype( obj )\n\n  def _handle_Wire( self, w_id, obj ):\n    return Wire( self._get_signal_dtype( obj ) )\n", count=1)]),
     # literal width
     _m('float-log-reintroduced-L1', TC1, "      return value.bit_length()\n", "      return math.ceil(math.log2(value+1))\n", 'R-intlog'),
     _m('float-log-reintroduced-rdt', RDT, "    return value.bit_length()\n", "    return ceil(log2(value+1))\n", 'R-C10-litwidth'),
@@ -1424,6 +1585,12 @@ MUTANTS = [
 ]
 
 EQUIV = [
+    dict(name='struct-dtype-memo-keyed-by-class-object', edits=[
+        dict(file=RT, old="    self._RTLIR_ifc_handlers = [\n", new="    self._struct_dtype_cache = {}\n\n    self._RTLIR_ifc_handlers = [\n", count=1),
+        dict(file=RT, old="  def _handle_Wire( self, w_id, obj ):\n    return Wire( get_rtlir_dtype( obj ) )\n",
+             new="  def _get_signal_dtype( self, obj ):\n    Type = obj._dsl.Type\n    if Type not in self._struct_dtype_cache:\n      self._struct_dtype_cache[ Type ] = get_rtlir_dtype( obj )\n"
+                 "    return self._struct_dtype_cache[ Type ]\n\n  def _handle_Wire( self, w_id, obj ):\n    return Wire( self._get_signal_dtype( obj ) )\n", count=1)]),
+    _m('freevar-explicit-iff-not-int-type', TC1, "    node._is_explicit = not isinstance(node.obj, int)", "    node._is_explicit = type(node.obj) != int"),
     _m('compare-mismatch-as-not-eq', TC2, "    if l_explicit and r_explicit:\n      if l_type != r_type:", "    if l_explicit and r_explicit:\n      if not (l_type == r_type):"),
     _m('max-as-conditional', TC2, "      res_nbits = max( l_nbits, r_nbits )", "      res_nbits = l_nbits if l_nbits >= r_nbits else r_nbits"),
     _m('litwidth-len-bin', RDT, "    return value.bit_length()\n", "    return len(bin(value)) - 2\n"),
